@@ -186,7 +186,28 @@ class C07(TreeSpec):
     id = "C07"
     engine_every = 4
     judged = ("C07",)
-    own_checks = ("rows_fees", "rows_flows", "rows_outlay", "rows_bidoffer_paid", "cash_ledger", "ledger_cash", "comm_calls")
+    own_checks = ("rows_fees", "rows_flows", "rows_outlay", "rows_bidoffer_paid", "rows_strategy_bidoffer_paid", "cash_ledger", "ledger_cash", "comm_calls")
+
+
+def _diff_tol(a, b, tol):
+    import numpy as np
+
+    for name in sorted(set(a) | set(b)):
+        ca, cb = a.get(name), b.get(name)
+        if ca is None or cb is None:
+            present = ca if ca is not None else cb
+            if any(np.any(np.nan_to_num(arr) != 0) for arr in present.values()):
+                return "%s exists in one run only" % name
+            continue
+        for c in sorted(set(ca) | set(cb)):
+            x, y = ca.get(c), cb.get(c)
+            if x is None or y is None or x.shape != y.shape:
+                return "%s.%s shape" % (name, c)
+            bad = ~((np.abs(x - y) <= tol + 1e-12 * np.abs(y)) | (np.isnan(x) & np.isnan(y)))
+            if bad.any():
+                i = int(np.argmax(bad))
+                return "%s.%s row %d: %r vs %r" % (name, c, i, x[i], y[i])
+    return None
 
 
 @register
@@ -215,7 +236,7 @@ class C08(TreeSpec):
             else:
                 ha = drive_engine.histories(sim_a.root)
                 hb = drive_engine.histories(sim_b.root)
-                d = drive_engine.diff_histories(ha, hb)  # cell-wise (NaN == NaN, -0.0 == 0.0)
+                d = _diff_tol(ha, hb, 1e-12 * cap)  # cell-wise, NaN == NaN; the two schedules differ in the last bits of long sums
                 if d is not None:
                     res["viol"].append({"check": "schedule_equivalence", "detail": "observing every node after every operation vs never observing: %s" % d, "flags": {}})
         return res
